@@ -423,6 +423,21 @@ def extra_cases(tier):
         obj = dict(pop=pop, n_ids=n_ids, cov=cov, z=z, U=[[gen.r6(0.5 - 0.3 * i + d) for d in range(n_dim)] for i in range(n_ids)],
                    late=False, n_samples=2, seed=5)
         add('pop', obj, ref.pop_n_par(pop, n_ids), points)
+    # the set_n_ids round trip after every single fixed parameter, with a heterogeneous part in front of / between the
+    # other parts (its size changes with the number of individuals)
+    for pop, points in [
+            (dict(kind='comp', parts=[dict(kind='hetero', n_dim=1), dict(kind='gauss', n_dim=1, centered=True)]),
+             [[1.5, 0.7, 1.0, 0.5], [0.4, 3.0, -0.5, 2.0]]),
+            (dict(kind='comp', parts=[dict(kind='pooled', n_dim=1), dict(kind='hetero', n_dim=1),
+                                      dict(kind='lognorm', n_dim=1, centered=True)]),
+             [[2.0, 1.5, 0.7, 0.1, 0.4], [0.6, 0.4, 3.0, -0.2, 0.8]])]:
+        n_ids, n_dim = 2, ref.pop_n_dim(pop)
+        z = [[gen.r6(0.35 * (i + 1) - 0.2 * d) for d in range(n_dim)] for i in range(n_ids)]
+        obj = dict(pop=pop, n_ids=n_ids, cov=None, z=z, U=None, late=False, n_samples=2, seed=5)
+        n = ref.pop_n_par(pop, n_ids)
+        for i in range(n):
+            out.append(dict(kind='pop', obj=obj, n=n, points=points, exhaustive=True, every=True,
+                            ops=[dict(op='fix', vals={str(i): _val(i)}), dict(op='nids'), dict(op='release_all', how='fixed')]))
     return out
 
 
